@@ -342,6 +342,10 @@ def extra_layouts(ctx, st, data):
         audio = audio + b"TAG" + bytes(125)
     elif r < 0.45:
         audio = audio[:rng.choice([0, 2, 10, 100, 127, 128, 130])]      # (nearly) no audio: the ID3v1 test of deleteid3 looks into the metadata
+    tiny = rng.random() < 0.12
+    if tiny:
+        # a file shorter than 128 bytes (regression: deleteid3 used to seek(-128, 2) and to look into the metadata blocks)
+        blocks, id3, audio = si, None, audio[:rng.choice([0, 2, 10])]
     r = ctx.model.call("flac_build", hx(id3) if id3 is not None else "none", enc_blocks(blocks), hx(audio))
     if not r.startswith("ok "):
         ctx.disagree("fam.flac", "flac_build failed", dict(data, reply=r[:100]))
@@ -366,8 +370,15 @@ def extra_layouts(ctx, st, data):
         vendor = default_vendor()
     else:
         vendor = o.tags.vendor.encode("utf-8")
-    o.tags["title"] = ["Zq" + "ä" * rng.choice([0, 1, 200, 3000])]
-    if rng.random() < 0.3:
+    if tiny:
+        did3 = rng.random() < 0.8
+        if rng.random() < 0.5:
+            mode_name = "zero"
+        o.tags["title"] = [rng.choice(["Zq", "TAG" + "x" * 111])]     # the second one put "TAG" 128 bytes before EOF
+        ctx.count("flac:layout-tiny")
+    else:
+        o.tags["title"] = ["Zq" + "ä" * rng.choice([0, 1, 200, 3000])]
+    if not tiny and rng.random() < 0.3:
         o.tags["x y"] = ["", "=="]
     comments = [(k.encode("ascii"), v.encode("utf-8")) for k, v in list(o.tags)]
     b = io.BytesIO(f0)
@@ -376,12 +387,8 @@ def extra_layouts(ctx, st, data):
         o.save(b, deleteid3=did3, padding=pad_callback(mode_name, log))
     except mutagen.MutagenError as e:
         exc = ("MutagenError", type(e).__name__)
-    except ValueError as e:
-        # BytesIO.seek(-128, 2) on a file shorter than 128 bytes raises ValueError where a real file raises IOError
+    except Exception as e:
         exc = ("OTHER", type(e).__name__)
-        if did3 and len(b.getvalue()) < 128:
-            ctx.count("flac:layout-short-deleteid3")
-            return
     f1 = b.getvalue()
     reply = ctx.model.call("flac_save", hx(f0), hx(vendor), enc_comments(comments), MODES[mode_name], "1" if did3 else "0")
     ctx.corr_cases += 1
